@@ -224,11 +224,11 @@ End Generic.
 
 (* ------------------------------------------------------------------------------------------ *)
 (* the free instance used by run_C42 satisfies the hypotheses *)
-Lemma sopen_seal s t v p : sopen s t v (Sealed s t v p) = Some p.
-Proof. unfold sopen. rewrite !Z.eqb_refl. reflexivity. Qed.
-Lemma sopen_bind s t v s' t' v' p : sopen s t v (Sealed s' t' v' p) <> None -> s = s' /\ t = t'.
+Lemma sopen_seal s t v p : sopen s t v (sseal s t v p) = Some p.
+Proof. unfold sopen, sseal. rewrite !Z.eqb_refl. reflexivity. Qed.
+Lemma sopen_bind s t v s' t' v' p : sopen s t v (sseal s' t' v' p) <> None -> s = s' /\ t = t'.
 Proof.
-  unfold sopen. destruct (s' =? s) eqn:E1; [|intro H; exfalso; apply H; reflexivity].
+  unfold sopen, sseal. destruct (s' =? s) eqn:E1; [|intro H; exfalso; apply H; reflexivity].
   destruct (t' =? t) eqn:E2; [|intro H; exfalso; apply H; reflexivity].
   apply Z.eqb_eq in E1, E2. auto.
 Qed.
@@ -297,33 +297,34 @@ Proof. induction l as [|x l IH]; [reflexivity|]. simpl. rewrite concat_app, IH. 
 Lemma app_data_plain cf writes close : app_data (plain_records cf writes close) = sent_bytes writes.
 Proof.
   unfold plain_records, sent_bytes. rewrite app_data_app, app_data_apps, concat_flat_map.
-  replace (app_data (if close then [(typAlert, [1; 0])] else [])) with (@nil Z) by (destruct close; reflexivity).
+  replace (app_data (match close with [] => [] | _ => [(typAlert, close)] end)) with (@nil Z) by (destruct close; reflexivity).
   rewrite app_nil_r. f_equal. induction writes as [|w ws IH]; [reflexivity|]. simpl. rewrite write_recs_concat, IH. reflexivity.
 Qed.
 
 Lemma plain_records_ok cf writes close : forallb wf_bytes writes = true ->
+  wf_bytes close = true -> blen close <= maxPlaintext ->
   Forall (fun tp => wf_bytes (snd tp) = true /\ blen (snd tp) <= maxPlaintext) (plain_records cf writes close).
 Proof.
-  intro Hw. unfold plain_records. apply Forall_app. split.
+  intros Hw Hcw Hcl. unfold plain_records. apply Forall_app. split.
   - apply Forall_forall. intros [t q] Hin. apply in_map_iff in Hin. destruct Hin as [q' [E Hin]]. inversion E; subst.
     apply in_flat_map in Hin. destruct Hin as [w [Hw1 Hq]]. rewrite forallb_forall in Hw.
     apply (write_recs_ok cf w q (Hw _ Hw1) Hq).
-  - destruct close; [|constructor]. constructor; [|constructor]. simpl. split; [reflexivity|unfold maxPlaintext, blen; simpl; lia].
+  - destruct close; [constructor|]. constructor; [|constructor]. cbn [snd]. split; assumption.
 Qed.
 
 (* the only alert record of the sender is the final close_notify *)
 Lemma plain_records_alert cf writes close k lvl :
   nth_error (plain_records cf writes close) k = Some (21, [lvl; 0]) ->
-  close = true /\ Datatypes.S k = length (plain_records cf writes close).
+  close = [lvl; 0] /\ Datatypes.S k = length (plain_records cf writes close).
 Proof.
   unfold plain_records. set (A := map (fun p => (typApp, p)) (flat_map (write_recs cf) writes)).
   intro H. destruct (Nat.lt_ge_cases k (length A)) as [Hlt|Hge].
   - rewrite nth_error_app1 in H by exact Hlt. apply nth_error_In in H. subst A. apply in_map_iff in H.
     destruct H as [q [E _]]. unfold typApp in E. inversion E.
-  - rewrite nth_error_app2 in H by exact Hge. destruct close.
-    + destruct (k - length A)%nat as [|j] eqn:Ej; [|destruct j; discriminate].
-      split; [reflexivity|]. rewrite app_length. simpl. lia.
+  - rewrite nth_error_app2 in H by exact Hge. destruct close as [|c0 cl].
     + destruct (k - length A)%nat; discriminate.
+    + destruct (k - length A)%nat as [|j] eqn:Ej; [|destruct j; discriminate].
+      simpl in H. inversion H. split; [reflexivity|]. rewrite app_length. simpl. lia.
 Qed.
 
 (* ---- the adversary's edits keep every body authentic ---- *)
@@ -337,10 +338,12 @@ Proof. intros H Hn. rewrite Forall_forall in H. apply H. eapply nth_error_In; ea
 Section Adversary.
   Variable cf : cfg.
   Variable S : list (Z * list Z).
-  Let auth := authentic sbody Sealed sopen cf S.
+  Variable bf : srec sbody -> Z -> option sbody.
+  Hypothesis Hbf : forall r off, bf r off = None.
+  Let auth := authentic sbody sseal sopen cf S.
 
   Lemma protect_auth : forall Sr k, (forall j tp, nth_error Sr j = Some tp -> nth_error S (k + j) = Some tp) ->
-    Forall auth (protect_from sbody Sealed cf (Z.of_nat k) Sr).
+    Forall auth (protect_from sbody sseal cf (Z.of_nat k) Sr).
   Proof.
     induction Sr as [|[t p] Sr IH]; intros k H; [constructor|]. simpl. constructor.
     - unfold auth, authentic. simpl. left. exists k, t, p. split; [|split; reflexivity].
@@ -349,9 +352,9 @@ Section Adversary.
       specialize (H (Datatypes.S j) tp Hj). replace (Datatypes.S k + j)%nat with (k + Datatypes.S j)%nat by lia. exact H.
   Qed.
 
-  Lemma flip_auth r off mask : auth r -> auth (flip_rec sbody r off mask).
+  Lemma flip_auth r off mask : auth r -> auth (flip_rec sbody bf r off mask).
   Proof.
-    intro H. unfold flip_rec.
+    intro H. unfold flip_rec. rewrite Hbf.
     repeat match goal with |- auth (if ?b then _ else _) => destruct b end; try exact H; try exact I;
       destruct r; exact H.
   Qed.
@@ -369,7 +372,7 @@ Section Adversary.
     apply Forall_app. split; [apply Forall_firstn'; exact Hl|]. constructor; [exact Hr|apply Forall_skipn'; exact Hl].
   Qed.
 
-  Lemma apply_op_auth l o : Forall auth l -> Forall auth (apply_op sbody l o).
+  Lemma apply_op_auth l o : Forall auth l -> Forall auth (apply_op sbody bf l o).
   Proof.
     intro Hl. destruct o as [i off mask|i j|i j|i|i t v n|i n]; cbn [apply_op].
     - apply upd_auth; [intros r Hr; apply flip_auth; exact Hr|exact Hl].
@@ -386,7 +389,7 @@ Section Adversary.
     - destruct ((0 <=? n) && (n <? 65536)); [|exact Hl]. apply insert_auth; [exact I|exact Hl].
     - apply upd_auth; [|exact Hl]. intros r Hr. destruct ((0 <=? n) && (n <? r_actual r)); [exact I|exact Hr].
   Qed.
-  Lemma apply_script_auth s : forall l, Forall auth l -> Forall auth (apply_script sbody l s).
+  Lemma apply_script_auth s : forall l, Forall auth l -> Forall auth (apply_script sbody bf l s).
   Proof.
     unfold apply_script. induction s as [|o s IH]; intros l Hl; [exact Hl|]. simpl. apply IH, apply_op_auth, Hl.
   Qed.
@@ -404,58 +407,69 @@ End Adversary.
 
 Definition S_of (x : c42_in) : list (Z * list Z) := plain_records (i_cfg x) (i_writes x) (i_close x).
 
-Lemma tampered_auth x : Forall (authentic sbody Sealed sopen (i_cfg x) (S_of x)) (fst (tampered_wire x)).
+Lemma sbflip_none c : ssl3_longpad c = false -> forall r off, sbflip c r off = None.
+Proof. intros H r off. unfold sbflip. rewrite H. reflexivity. Qed.
+
+Lemma tampered_auth x : ssl3_longpad (i_cfg x) = false ->
+  Forall (authentic sbody sseal sopen (i_cfg x) (S_of x)) (fst (tampered_wire x)).
 Proof.
-  unfold tampered_wire. apply apply_cut_auth, apply_script_auth. unfold orig_wire, protect.
+  intro Hl. unfold tampered_wire. apply apply_cut_auth, apply_script_auth; [apply sbflip_none, Hl|]. unfold orig_wire, protect.
   change 0 with (Z.of_nat 0). apply protect_auth. intros j tp H. exact H.
 Qed.
 
 (* ---- comparing wires ---- *)
 Lemma srec_eqb_refl r : srec_eqb r r = true.
 Proof.
-  unfold srec_eqb. rewrite !Z.eqb_refl. simpl. destruct (r_body r) as [[k t v p]|]; [|reflexivity].
-  simpl. rewrite !Z.eqb_refl, list_Z_eqb_refl. reflexivity.
+  unfold srec_eqb. rewrite !Z.eqb_refl. simpl. destruct (r_body r) as [[k t v p pm]|]; [|reflexivity].
+  simpl. rewrite !Z.eqb_refl, list_Z_eqb_refl, Bool.eqb_reflx. reflexivity.
 Qed.
 Lemma srecs_prefix_firstn n : forall l, srecs_prefix (firstn n l) l = true.
 Proof. induction n; intros [|r l]; simpl; try reflexivity. rewrite srec_eqb_refl, IHn. reflexivity. Qed.
 Lemma length_protect_from B seal cf : forall l k, length (protect_from B seal cf k l) = length l.
 Proof. induction l as [|[t p] l IH]; intro k; simpl; [reflexivity|]. rewrite IH. reflexivity. Qed.
 
+Lemma wf_base_bytes x : wf_base x = true ->
+  forallb wf_bytes (i_writes x) = true /\ wf_bytes (i_close x) = true /\ blen (i_close x) <= maxPlaintext.
+Proof.
+  unfold wf_base. intro H. apply andb_true_iff in H. destruct H as [H _]. apply andb_true_iff in H. destruct H as [_ H].
+  apply andb_true_iff in H. destruct H as [H H3]. apply andb_true_iff in H. destruct H as [H1 H2].
+  apply Z.leb_le in H3. unfold maxPlaintext. repeat split; try assumption. lia.
+Qed.
+
 (* ------------------------------------------------------------------------------------------ *)
 (* the executable model (free instance + tamper scripts): prefix and detection *)
 Theorem model_prefix_and_detection : forall x w trail d st n,
-  wf_base x = true -> tampered_wire x = (w, trail) ->
+  wf_base x = true -> ssl3_longpad (i_cfg x) = false -> tampered_wire x = (w, trail) ->
   receive sbody sopen (i_cfg x) w trail = (d, st, n) ->
   is_prefix d (sent_bytes (i_writes x)) = true /\
   0 <= n /\ firstn (Z.to_nat n) w = firstn (Z.to_nat n) (orig_wire x) /\
   (relevant x = true -> tail_dropped x = false -> st <> 1).
 Proof.
-  intros x w trail d st n Hwf Hw Hr.
-  unfold wf_base in Hwf. apply andb_true_iff in Hwf. destruct Hwf as [Hwf _].
-  apply andb_true_iff in Hwf. destruct Hwf as [_ Hbytes].
-  pose proof (tampered_auth x) as Ha. rewrite Hw in Ha. simpl in Ha.
-  destruct (receive_prefix_only sbody Sealed sopen (i_cfg x) (S_of x) sopen_seal sopen_bind
-              (plain_records_ok _ _ _ Hbytes) w trail d st n Ha Hr) as [[rest Hp] [Hn [Hg [Hd Hs]]]].
+  intros x w trail d st n Hwf Hlp Hw Hr.
+  destruct (wf_base_bytes x Hwf) as [Hbytes [Hcw Hcl]].
+  pose proof (tampered_auth x Hlp) as Ha. rewrite Hw in Ha. simpl in Ha.
+  destruct (receive_prefix_only sbody sseal sopen (i_cfg x) (S_of x) sopen_seal sopen_bind
+              (plain_records_ok _ _ _ Hbytes Hcw Hcl) w trail d st n Ha Hr) as [[rest Hp] [Hn [Hg [Hd Hs]]]].
   split; [|split; [exact Hn|split; [exact Hg|]]].
   - apply is_prefix_spec. exists rest. unfold S_of in Hp. rewrite app_data_plain in Hp. exact Hp.
   - intros Hrel Htd Hst. specialize (Hs Hst). unfold tail_dropped, relevant in *. rewrite Hw in *.
-    change (protect sbody Sealed (i_cfg x) (S_of x)) with (orig_wire x) in *.
+    change (protect sbody sseal (i_cfg x) (S_of x)) with (orig_wire x) in *.
     destruct Hs as [Hpre|[Hn1 [lvl Hx]]].
     + rewrite Hrel in Htd. rewrite Hpre in Htd. rewrite srecs_prefix_firstn in Htd. discriminate.
     + destruct (plain_records_alert (i_cfg x) (i_writes x) (i_close x) _ _ Hx) as [Hc Hlen].
       assert (Hall : firstn (Z.to_nat n) (orig_wire x) = orig_wire x).
       { apply firstn_all2. unfold orig_wire, protect. rewrite length_protect_from. lia. }
-      rewrite Hall in Hg. rewrite Hc in Hrel. rewrite <- Hg in Hrel. rewrite srecs_prefix_firstn in Hrel. discriminate.
+      rewrite Hall in Hg. rewrite Hc in Hrel. cbn [terminal Z.eqb orb] in Hrel. rewrite <- Hg in Hrel. rewrite srecs_prefix_firstn in Hrel. discriminate.
 Qed.
 
 Theorem prop_C42_of_model_tampered : forall i x,
-  dec_C42 i = Some x -> wf_base x = true -> relevant x = true -> kf_C42 i = 0 ->
+  dec_C42 i = Some x -> wf_base x = true -> ssl3_longpad (i_cfg x) = false -> relevant x = true -> kf_C42 i = 0 ->
   prop_C42 i (run_C42 i) = true.
 Proof.
-  intros i x Hdec Hwf Hrel Hkf. unfold run_C42, prop_C42, kf_C42 in *. rewrite Hdec in *. rewrite Hwf in *.
+  intros i x Hdec Hwf Hlp Hrel Hkf. unfold run_C42, prop_C42, kf_C42 in *. rewrite Hdec in *. rewrite Hwf in *.
   destruct (tampered_wire x) as [w trail] eqn:Hw.
   destruct (receive sbody sopen (i_cfg x) w trail) as [[d st] n] eqn:Hr.
-  destruct (model_prefix_and_detection x w trail d st n Hwf Hw Hr) as [Hp [_ [_ Hdet]]].
+  destruct (model_prefix_and_detection x w trail d st n Hwf Hlp Hw Hr) as [Hp [_ [_ Hdet]]].
   rewrite Hp, Hrel. simpl. simpl in Hkf. destruct (tail_dropped x) eqn:Htd; [discriminate|].
   apply negb_true_iff, Z.eqb_neq. apply Hdet; [exact Hrel|reflexivity].
 Qed.
@@ -597,11 +611,10 @@ Proof. induction ws as [|w l IH]; [reflexivity|]. simpl. rewrite concat_app, wri
    everything is delivered, Read ends with io.EOF, the sequence number is the number of records *)
 Theorem model_untampered : forall x, wf_base x = true -> cfg_ok (i_cfg x) = true -> pads_ok x = true ->
   receive sbody sopen (i_cfg x) (orig_wire x) 0 =
-  (sent_bytes (i_writes x), 1, Z.of_nat (length (S_of x))).
+  (sent_bytes (i_writes x), clean_status (i_close x), Z.of_nat (length (S_of x))).
 Proof.
-  intros x Hwf Hc Hpads. unfold wf_base in Hwf. apply andb_true_iff in Hwf. destruct Hwf as [Hwf _].
-  apply andb_true_iff in Hwf. destruct Hwf as [_ Hbytes].
-  pose proof (plain_records_ok (i_cfg x) (i_writes x) (i_close x) Hbytes) as Hok.
+  intros x Hwf Hc Hpads. destruct (wf_base_bytes x Hwf) as [Hbytes [Hcw Hcl]].
+  pose proof (plain_records_ok (i_cfg x) (i_writes x) (i_close x) Hbytes Hcw Hcl) as Hok.
   unfold pads_ok in Hpads. rewrite forallb_forall in Hpads.
   assert (Hpf : forall tp, In tp (plain_records (i_cfg x) (i_writes x) (i_close x)) -> pad_fine (i_cfg x) (snd tp)).
   { intros tp Hin. specialize (Hpads tp Hin). unfold pad_fine.
@@ -616,26 +629,28 @@ Proof.
     apply (Hpf (typApp, p)). apply in_or_app. left. exact Hin'. }
   assert (Hcat : concat ws = sent_bytes (i_writes x)).
   { unfold ws, sent_bytes. apply concat_write_recs. }
-  assert (Hpfr : forall k a b, protect_from sbody Sealed (i_cfg x) k (a ++ b) =
-                 protect_from sbody Sealed (i_cfg x) k a ++ protect_from sbody Sealed (i_cfg x) (k + Z.of_nat (length a)) b).
+  assert (Hpfr : forall k a b, protect_from sbody sseal (i_cfg x) k (a ++ b) =
+                 protect_from sbody sseal (i_cfg x) k a ++ protect_from sbody sseal (i_cfg x) (k + Z.of_nat (length a)) b).
   { intros k a. revert k. induction a as [|[t p] a IH]; intros k b; cbn [app protect_from length].
     - rewrite Z.add_0_r. reflexivity.
     - rewrite IH. replace (k + 1 + Z.of_nat (length a)) with (k + Z.of_nat (Datatypes.S (length a))) by lia. reflexivity. }
   rewrite Hpfr, app_length, map_length.
-  destruct (i_close x).
-  - assert (Hal : pad_fine (i_cfg x) [1; 0]).
-    { apply (Hpf (typAlert, [1; 0])). apply in_or_app. right. left. reflexivity. }
-    rewrite (recv_apps sbody Sealed sopen (i_cfg x) sopen_seal Hc ws 0 [] _ 0 Hws').
-    + cbn [protect_from]. rewrite ?map_length.
-      rewrite (recv_head sbody Sealed sopen (i_cfg x) sopen_seal Hc).
-      * unfold typAlert. cbn [Z.eqb Pos.eqb]. rewrite Hcat. simpl app. repeat f_equal. simpl length. lia.
-      * unfold blen, maxPlaintext. simpl. lia.
-      * exact Hal.
-      * simpl. lia.
-    + cbn [protect_from]. rewrite ?map_length. cbn [total r_actual].
-      destruct (wire_len_facts sbody Sealed sopen (i_cfg x) sopen_seal Hc (blen [1; 0])) as [Hw _]; [unfold blen, maxPlaintext; simpl; lia|]. lia.
-  - cbn [protect_from]. rewrite (recv_apps sbody Sealed sopen (i_cfg x) sopen_seal Hc ws 0 [] [] 0 Hws' ltac:(simpl; lia)).
+  destruct (i_close x) as [|c0 cl] eqn:Ecl.
+  - cbn [protect_from]. rewrite (recv_apps sbody sseal sopen (i_cfg x) sopen_seal Hc ws 0 [] [] 0 Hws' ltac:(simpl; lia)).
     simpl recv. rewrite Hcat. simpl app. repeat f_equal. simpl length. lia.
+  - set (fin := c0 :: cl) in *.
+    assert (Hal : pad_fine (i_cfg x) fin).
+    { apply (Hpf (typAlert, fin)). apply in_or_app. right. left. reflexivity. }
+    assert (Hfl : 0 <= blen fin <= maxPlaintext) by (unfold blen in *; lia).
+    rewrite (recv_apps sbody sseal sopen (i_cfg x) sopen_seal Hc ws 0 [] _ 0 Hws').
+    + cbn [protect_from]. rewrite ?map_length.
+      rewrite (recv_head sbody sseal sopen (i_cfg x) sopen_seal Hc typAlert fin _ _ [] 0 Hfl Hal ltac:(simpl; lia)).
+      unfold typAlert. cbn [Z.eqb Pos.eqb]. rewrite Hcat. simpl app.
+      replace (0 + Z.of_nat (length ws) + 1) with (Z.of_nat (length ws + length [(21, fin)])) by (simpl length; lia).
+      unfold fin, clean_status. destruct cl as [|a [|b cl']]; try reflexivity.
+      destruct (a =? 0); [reflexivity|]. destruct (c0 =? 1); [reflexivity|]. destruct (c0 =? 2); reflexivity.
+    + cbn [protect_from]. rewrite ?map_length. cbn [total r_actual].
+      destruct (wire_len_facts sbody sseal sopen (i_cfg x) sopen_seal Hc (blen fin)) as [Hw _]; [exact Hfl|]. lia.
 Qed.
 
 Lemma srecs_prefix_refl l : srecs_prefix l l = true.
@@ -643,18 +658,19 @@ Proof. rewrite <- (firstn_all l) at 1. apply srecs_prefix_firstn. Qed.
 
 (* prop_C42 holds of the model on inputs without tampering *)
 Theorem prop_C42_of_model_untampered : forall i x,
-  dec_C42 i = Some x -> wf_base x = true -> cfg_ok (i_cfg x) = true -> i_script x = [] -> i_cut x < 0 ->
-  prop_C42 i (run_C42 i) = true /\ kf_C42 i = 0.
+  dec_C42 i = Some x -> wf_base x = true -> cfg_ok (i_cfg x) = true -> ssl3_longpad (i_cfg x) = false ->
+  i_script x = [] -> i_cut x < 0 ->
+  prop_C42 i (run_C42 i) = true.
 Proof.
-  intros i x Hdec Hwf Hc Hs Hcut.
+  intros i x Hdec Hwf Hc Hlp Hs Hcut.
   assert (Hw : tampered_wire x = (orig_wire x, 0)).
   { unfold tampered_wire, apply_cut. rewrite Hs. simpl apply_script. apply Z.ltb_lt in Hcut. rewrite Hcut. reflexivity. }
   assert (Hrel : relevant x = false).
-  { unfold relevant. rewrite Hw. unfold srecs_eqb. rewrite srecs_prefix_refl, Z.eqb_refl. destruct (i_close x); reflexivity. }
-  unfold run_C42, prop_C42, kf_C42, tail_dropped. rewrite Hdec, Hwf, Hw, Hrel.
+  { unfold relevant. rewrite Hw. unfold srecs_eqb. rewrite srecs_prefix_refl, Z.eqb_refl. destruct (terminal (i_close x)); reflexivity. }
+  unfold run_C42, prop_C42. rewrite Hdec, Hwf, Hw, Hrel.
   destruct (receive sbody sopen (i_cfg x) (orig_wire x) 0) as [[d st] n] eqn:Hr.
-  split; [|reflexivity]. cbn [andb].
-  destruct (model_prefix_and_detection x _ _ d st n Hwf Hw Hr) as [Hp _]. rewrite Hp.
+  cbn [andb].
+  destruct (model_prefix_and_detection x _ _ d st n Hwf Hlp Hw Hr) as [Hp _]. rewrite Hp.
   destruct (pads_ok x) eqn:Hpo; [|reflexivity].
   rewrite (model_untampered x Hwf Hc Hpo) in Hr. inversion Hr; subst.
   rewrite Z.eqb_refl. unfold bytes_eqb. rewrite list_Z_eqb_refl. reflexivity.
@@ -666,30 +682,31 @@ Theorem prop_C42_of_model : forall i x,
   dec_C42 i = Some x -> wf_C42 x = true -> kf_C42 i = 0 -> prop_C42 i (run_C42 i) = true.
 Proof.
   intros i x Hdec Hwf Hkf. unfold wf_C42 in Hwf. apply andb_true_iff in Hwf. destruct Hwf as [Hwf Hcase].
+  apply andb_true_iff in Hwf. destruct Hwf as [Hwf Hlp]. apply negb_true_iff in Hlp.
   apply andb_true_iff in Hwf. destruct Hwf as [Hb Hc].
   destruct (relevant x) eqn:Hrel.
-  - apply (prop_C42_of_model_tampered i x Hdec Hb Hrel Hkf).
+  - apply (prop_C42_of_model_tampered i x Hdec Hb Hlp Hrel Hkf).
   - simpl in Hcase. apply andb_true_iff in Hcase. destruct Hcase as [Hs Hcut].
     destruct (i_script x) eqn:Es; [|discriminate]. apply Z.ltb_lt in Hcut.
-    apply (prop_C42_of_model_untampered i x Hdec Hb Hc Es Hcut).
+    apply (prop_C42_of_model_untampered i x Hdec Hb Hc Hlp Es Hcut).
 Qed.
 
 (* ---- witnesses ---- *)
 Definition hello_world : val := VL [VB [104; 101; 108; 108; 111]; VB [119; 111; 114; 108; 100]].
 Definition ex_taildrop : val :=
-  VL [VL [VZ 47; VZ 771; VZ 1; VZ 20; VZ 16; VZ 16; VZ 0; VZ 0; VZ 0]; hello_world; VZ 1;
+  VL [VL [VZ 47; VZ 771; VZ 1; VZ 20; VZ 16; VZ 16; VZ 0; VZ 0; VZ 0]; hello_world; VB [1; 0];
       VL [VL [VZ 4; VZ 2]; VL [VZ 4; VZ 1]]; VZ (-1); VZ 0; VZ 64].
 Definition ex_flip_tag : val :=
-  VL [VL [VZ 49199; VZ 771; VZ 2; VZ 0; VZ 0; VZ 8; VZ 16; VZ 0; VZ 0]; hello_world; VZ 1;
+  VL [VL [VZ 49199; VZ 771; VZ 2; VZ 0; VZ 0; VZ 8; VZ 16; VZ 0; VZ 0]; hello_world; VB [1; 0];
       VL [VL [VZ 1; VZ 1; VZ 33; VZ 1]]; VZ (-1); VZ 0; VZ 64].
 Definition ex_replay : val :=
-  VL [VL [VZ 5; VZ 769; VZ 0; VZ 20; VZ 0; VZ 0; VZ 0; VZ 0; VZ 0]; hello_world; VZ 1;
+  VL [VL [VZ 5; VZ 769; VZ 0; VZ 20; VZ 0; VZ 0; VZ 0; VZ 0; VZ 0]; hello_world; VB [1; 0];
       VL [VL [VZ 3; VZ 0; VZ 1]]; VZ (-1); VZ 0; VZ 64].
 Definition ex_forged_close : val :=
-  VL [VL [VZ 47; VZ 769; VZ 1; VZ 20; VZ 16; VZ 0; VZ 0; VZ 0; VZ 0]; hello_world; VZ 0;
+  VL [VL [VZ 47; VZ 769; VZ 1; VZ 20; VZ 16; VZ 0; VZ 0; VZ 0; VZ 0]; hello_world; VB [];
       VL [VL [VZ 5; VZ 1; VZ 21; VZ 769; VZ 2]]; VZ (-1); VZ 0; VZ 64].
 Definition ex_clean : val :=
-  VL [VL [VZ 47; VZ 769; VZ 1; VZ 20; VZ 16; VZ 0; VZ 0; VZ 0; VZ 0]; hello_world; VZ 1; VL []; VZ (-1); VZ 0; VZ 64].
+  VL [VL [VZ 47; VZ 769; VZ 1; VZ 20; VZ 16; VZ 0; VZ 0; VZ 0; VZ 0]; hello_world; VB [1; 0]; VL []; VZ (-1); VZ 0; VZ 64].
 
 Lemma tail_truncation_witness : exists i x,
   dec_C42 i = Some x /\ wf_C42 x = true /\ relevant x = true /\ kf_C42 i = 1 /\
@@ -706,9 +723,9 @@ Proof. vm_compute. repeat split. Qed.
 
 (* a peer with SSLv3-style padding (arbitrary content): rejected by a TLS 1.0 receiver, accepted by SSLv3 *)
 Definition ex_ssl3_pad_tls : val :=
-  VL [VL [VZ 47; VZ 769; VZ 1; VZ 20; VZ 16; VZ 0; VZ 0; VZ 1; VZ 0]; hello_world; VZ 1; VL []; VZ (-1); VZ 0; VZ 64].
+  VL [VL [VZ 47; VZ 769; VZ 1; VZ 20; VZ 16; VZ 0; VZ 0; VZ 1; VZ 0]; hello_world; VB [1; 0]; VL []; VZ (-1); VZ 0; VZ 64].
 Definition ex_ssl3_pad_ssl3 : val :=
-  VL [VL [VZ 47; VZ 768; VZ 1; VZ 20; VZ 16; VZ 0; VZ 0; VZ 1; VZ 0]; hello_world; VZ 1; VL []; VZ (-1); VZ 0; VZ 64].
+  VL [VL [VZ 47; VZ 768; VZ 1; VZ 20; VZ 16; VZ 0; VZ 0; VZ 1; VZ 0]; hello_world; VB [1; 0]; VL []; VZ (-1); VZ 0; VZ 64].
 Lemma wf_examples_lemma :
   (exists x, dec_C42 ex_flip_tag = Some x /\ wf_C42 x = true) /\
   (exists x, dec_C42 ex_replay = Some x /\ wf_C42 x = true) /\
@@ -718,3 +735,14 @@ Lemma wf_examples_lemma :
              run_C42 ex_ssl3_pad_tls = VL [VB []; VZ 120; VZ 0]) /\
   (exists x, dec_C42 ex_ssl3_pad_ssl3 = Some x /\ wf_C42 x = true /\ pads_ok x = true).
 Proof. repeat split; eexists; (split; [vm_compute; reflexivity|]); vm_compute; repeat split. Qed.
+
+(* finding 2: SSLv3, peer with three blocks of padding, one bit of the padding flipped: accepted *)
+Definition ex_ssl3_longpad_flip : val :=
+  VL [VL [VZ 47; VZ 768; VZ 1; VZ 20; VZ 16; VZ 0; VZ 0; VZ 2; VZ 2]; hello_world; VB [1; 0];
+      VL [VL [VZ 1; VZ 1; VZ 38; VZ 4]]; VZ (-1); VZ 0; VZ 64].
+Lemma ssl3_padding_witness : exists x,
+  dec_C42 ex_ssl3_longpad_flip = Some x /\ wf_base x = true /\ ssl3_longpad (i_cfg x) = true /\
+  relevant x = true /\ kf_C42 ex_ssl3_longpad_flip = 2 /\
+  run_C42 ex_ssl3_longpad_flip = VL [VB [104; 101; 108; 108; 111; 119; 111; 114; 108; 100]; VZ 1; VZ 5] /\
+  prop_C42 ex_ssl3_longpad_flip (run_C42 ex_ssl3_longpad_flip) = false.
+Proof. eexists. split; [vm_compute; reflexivity|]. vm_compute. repeat split. Qed.
